@@ -15,8 +15,17 @@ import (
 	"github.com/opencontainers/go-digest"
 )
 
-// VerifGC runs the per-repository garbage collection synchronously.
-func VerifGC(r Repo) error { return r.gc() }
+// VerifGC runs the per-repository garbage collection synchronously.  On the directory store the
+// cached modification time is cleared first so that the collection re-reads index.json, which the real
+// code does whenever the file changed since the last load (e.g. after any upload session was opened).
+func VerifGC(r Repo) error {
+	if dr, ok := r.(*dirRepo); ok {
+		dr.mu.Lock()
+		dr.timeMod = time.Time{}
+		dr.mu.Unlock()
+	}
+	return r.gc()
+}
 
 // VerifGCPass runs the store-wide pass the ticker would run.
 func VerifGCPass(s Store, cur, prev time.Time) error {
